@@ -211,7 +211,10 @@ Example C02_reparse_nonvacuous :
             34; 97; 34; 58; 34; 92; 117; 48; 48; 101; 57; 92; 47; 34; 44; 34; 122; 34; 58; 110; 117; 108; 108; 125; 32; 116; 97; 105; 108; 32] in
   exists r, read_header (jdec renum64) (mkp [105] h [97] None) = RRec r /\ numfixed renum64 (JObj (w_ann r)) = true /\
             length (w_ann r) = 3%nat.
-Proof. eexists. repeat split; vm_compute; reflexivity. Qed.
+Proof.
+  intros h. destruct (read_header (jdec renum64) (mkp [105] h [97] None)) as [r| |] eqn:E; vm_compute in E; try discriminate E.
+  injection E as <-. eexists. split; [reflexivity|]. split; vm_compute; reflexivity.
+Qed.
 
 (** the two transcriptions of the number path agree on integer tokens (spot check; both are compared with go-json on every run) *)
 Example C02_number_paths_agree :
